@@ -227,7 +227,7 @@ pub fn compute_coset_elements(
         cs_ok(coset_size@),             // [C18:coset-size-in-2-4-8-16]
         fri_group@.len() >= 16,         // [C18:fri-group-has-16-elements]
     ensures
-        r.is_ok() <==> coset_walk(fqs(old(queries)@), fv(old(sibling_witness)@), coset_start_index@, fv(fri_group@), 0, coset_size@, Seq::<nat>::empty(), 0) is Some, // [C01,C02,C07,C18:coset-errs-exactly-when-sibling-leaves-run-out]
+        r.is_ok() <==> coset_walk(fqs(old(queries)@), fv(old(sibling_witness)@), coset_start_index@, fv(fri_group@), 0, coset_size@, Seq::<nat>::empty(), 0) is Some, // [C01,C02,C06,C07,C18:coset-errs-exactly-when-sibling-leaves-run-out]
         r.is_ok() ==> ({
             let o = coset_walk(fqs(old(queries)@), fv(old(sibling_witness)@), coset_start_index@, fv(fri_group@), 0, coset_size@, Seq::<nat>::empty(), 0)->Some_0;
             &&& fv(r->Ok_0.0@) == o.elems
@@ -298,7 +298,7 @@ pub fn compute_next_layer(
         cs_ok(params.coset_size@),           // [C18:coset-size-in-2-4-8-16]
         params.fri_group@.len() >= 16,       // [C18:fri-group-has-16-elements]
     ensures
-        r.is_ok() <==> layer_spec(fqs(old(queries)@), fv(old(sibling_witness)@), params.coset_size@, fv(params.fri_group@), params.eval_point@) is Some, // [C01,C02,C07,C18:layer-errs-exactly-when-sibling-leaves-run-out]
+        r.is_ok() <==> layer_spec(fqs(old(queries)@), fv(old(sibling_witness)@), params.coset_size@, fv(params.fri_group@), params.eval_point@) is Some, // [C01,C02,C06,C07,C18:layer-errs-exactly-when-sibling-leaves-run-out]
         r.is_ok() ==> ({
             let o = layer_spec(fqs(old(queries)@), fv(old(sibling_witness)@), params.coset_size@, fv(params.fri_group@), params.eval_point@)->Some_0;
             &&& fqs(r->Ok_0.0@) == o.next
